@@ -3,7 +3,9 @@ import os, re, time
 from .. import meta as M
 from ..core import Violation, VERIF, modules_for
 from .. import chanmap, build
+from .. import absmeta as A
 from ..core import Violation, VERIF
+import random, zlib
 
 # class of a script (vlib/meta.py `expected`, mirroring the hypotheses of the …_partial theorems) -> known-finding id, failure
 # signatures that class may show.  `str-*` = any string mismatch.
@@ -193,6 +195,12 @@ def gen(ctx):
     for cont, ch, mp in (("wavex", 2, (2, 3)), ("rf64", 2, (2, 3)), ("aiff", 2, (2, 3)), ("caf", 2, (2, 3)), ("wavex", 1, (4,)), ("caf", 1, (1,)), ("aiff", 1, (1,)),
                          ("wavex", 6, (2, 3, 4, 7, 5, 6)), ("caf", 6, (2, 3, 4, 7, 5, 6)), ("wav", 2, (2, 3)), ("caf", 2, (3, 4)), ("wavex", 2, (0, 1)), ("wavex", 2, (2, 99))):
         add("chmap-%s-%s" % (cont, "_".join(map(str, mp))), "chmap", cont, [chmap_cmd(mp), S(1, b"T")], ch=ch)
+    # 6b. a second channel map: one the container takes replaces the first, one it refuses (no layout tag / channel mask, or an invalid
+    #     code) leaves the first in force
+    for cont in ("caf", "aiff", "wavex", "rf64"):
+        for k, (first, second) in enumerate((((2, 3), (3, 2)), ((2, 3), (9, 10)), ((2, 3), (2, 99)), ((9, 10), (3, 2)), ((3, 2), (2, 3)), ((2, 3), (2, 3)))):
+            add("chmap2-%s-%d" % (cont, k), "chmap", cont, [chmap_cmd(first), S(4, b"A"), chmap_cmd(second), S(1, b"T")], ch=2)
+        add("chmap2-%s-6ch" % cont, "chmap", cont, [chmap_cmd((2, 3, 4, 7, 5, 6)), chmap_cmd((7, 6, 5, 4, 3, 2)), S(1, b"T")], ch=6)
     # 7. several items in one header, random order
     for rep in range(120 if not thorough else 5000):
         cont = rng.choice(["wav", "wav", "wavex", "rf64", "rifx", "aiff", "caf"])
@@ -343,8 +351,12 @@ def corr_diff(ml, il):
     return None
 
 
-def replay_text(why, script, extra=""):
-    return "# C12: %s\n%s--- script\n%s" % (why.replace("\n", "\n# "), extra, script)
+def replay_text(why, script, extra="", perm=None, tags=None):
+    """a replay file: free text, `--- script` (the main run; the twin run is derived from its transcript on the tree under test),
+    optionally `--- perm` (the permuted run)"""
+    if tags:
+        extra += "abs-meta-clauses %s\n" % ",".join(tags)
+    return "# C12: %s\n%s--- script\n%s%s" % (why.replace("\n", "\n# "), extra, script, ("--- perm\n" + perm) if perm else "")
 
 
 def lib_package(ctx):
@@ -366,10 +378,26 @@ def shrink(ctx, script, package, sigs, budget=24):
         text_ = "\n".join(trial) + "\n"
         lines, rc, err = ctx.script(text_)
         budget -= 1
-        F, cl = M.judge(M.analyse(text_, lines), package)
+        F, cl = lean_judge(ctx, text_, lines, package)
         if any(f[0] in sigs for f in F):
             ops = trial
     return "\n".join(ops) + "\n"
+
+
+def lean_judge(ctx, script, lines, package, perm=None):
+    """THE PREDICATE on one script: `Sf.AbsMeta.judge` through the driver (main run, the twin run it calls for, optionally a permuted
+    run), the Python predicate as cross-check.  -> (failures [(signature = Lean clause tag, text)], classes)"""
+    lines = A.clean_lines(lines)
+    tw = A.twin_script(script, lines)
+    twin = None
+    if tw is not None and not any(l.startswith(A.DEAD) for l in lines):
+        twin = (tw, ctx.script(tw)[0])
+    pm = None
+    if perm is not None:
+        pm = (perm, ctx.script(perm)[0])
+    v = A.judge_one_c12(ctx, script, lines, package, twin, pm)
+    pyF, pycl = M.judge(M.analyse(script, lines), package)
+    return A.combine_c12(ctx, "single", v, pyF, pycl)
 
 
 def check_known(ctx, package):
@@ -383,8 +411,7 @@ def check_known(ctx, package):
         lines, rc, err = ctx.script(script)
         ctx.count(1, tag="witness-" + e["id"])
         ctx.coverage["traces_validated_against_impl"] += 1
-        s = M.analyse(script, lines)
-        F, classes = M.judge(s, package)
+        F, classes = lean_judge(ctx, script, lines, package)
         want = [(cl, sg) for cl, (kid, sg) in CLASS_KF.items() if kid == e["id"]]
         sig = rc == 0 and any(cl in classes and any(sig_matches(f[0], sg) for f in F) for cl, sg in want)
         if e["id"] == "C13-header-cache":       # its witness is a custom-chunk script (C13): the signature there is the failed re-open
@@ -424,7 +451,25 @@ def run(ctx):
     found_input = bool(ctx.violations)
 
     G = gen(ctx)
-    impl = ctx.batch([(n, s) for (n, k, s) in G], op_timeout=20, workers=4)
+    # permuted runs ("forall orders of setting the items"): every mix script, every 4th of the others; class scripts never
+    perms = {}
+    for j, (n, k, s) in enumerate(G):
+        if k == "mix" or (k != "class" and j % 4 == 0):
+            p = A.perm_script(s, random.Random(zlib.crc32(n.encode()) ^ ctx.seed))
+            if p is not None:
+                perms[n] = p
+    impl = ctx.batch([(n, s) for (n, k, s) in G] + [("perm!" + n, p) for n, p in perms.items()], op_timeout=20, workers=4)
+    # twin runs ("never alters the audio data or other metadata"): the script without the refused / late / unsupported calls
+    twins = {}
+    for (n, k, s) in G:
+        ls = A.clean_lines(impl.get(n, []))
+        if ls and not any(l.startswith(A.DEAD) for l in ls):
+            t = A.twin_script(s, ls)
+            if t is not None:
+                twins[n] = t
+    timpl = ctx.batch([("twin!" + n, t) for n, t in twins.items()], op_timeout=20, workers=4)
+    verdicts = A.judge_c12(ctx, [(n, s, impl.get(n, ["<no output>"]), (twins[n], timpl.get("twin!" + n, [])) if n in twins else None,
+                                  (perms[n], impl.get("perm!" + n, [])) if n in perms else None) for (n, k, s) in G], package)
     modelled = [(n, s) for (n, k, s) in G if M.cont_of(int(re.search(r"fmt=([0-9a-f]+)", s).group(1), 16)) in MODELLED]
     model = model_lines(ctx, modelled, package)
     kinds, waived, corr_ok, reported = {}, {}, 0, {}
@@ -440,7 +485,9 @@ def run(ctx):
         while lines and lines[-1] == "":
             lines.pop()
         s = M.analyse(script, lines)
-        F, classes = M.judge(s, package)
+        pyF, pyclasses = M.judge(s, package)
+        # the Lean verdict decides; the Python predicate is the cross-check
+        F, classes = A.combine_c12(ctx, name, verdicts[name], pyF, pyclasses)
         ctx.count(1, tag="%s-%s" % (kind, s.cont))
         ctx.coverage["traces_validated_against_impl"] += 1
         kinds[kind] = kinds.get(kind, 0) + 1
@@ -462,13 +509,15 @@ def run(ctx):
         if unw:
             found_input = True
             sigs = {f[0] for f in unw}
-            small = shrink(ctx, script, package, sigs) if "crash" not in sigs else script
+            only_perm = all(sg.startswith("order-") for sg in sigs)
+            small = shrink(ctx, script, package, sigs) if "crash" not in sigs and not only_perm else script
             lines2, rc2, err2 = ctx.script(small)
-            F2, cl2 = M.judge(M.analyse(small, lines2), package)
+            F2, cl2 = lean_judge(ctx, small, lines2, package, perm=perms.get(name) if only_perm else None)
             meta2 = next((l for l in lines2 if l.startswith("meta")), "")
             report((kind, s.cont, tuple(sorted(sigs))), "prop-" + name,
                    replay_text("%s (%s, %s): %s\nclasses of the script: %s\nwhat the re-opened file returns: %s"
-                               % (name, s.cont, kind, "; ".join(f[1] for f in (F2 or unw))[:1500], ",".join(sorted(cl2 if F2 else classes)) or "-", M.summary(M.parse_meta(meta2))[:600]), small if F2 else script))
+                               % (name, s.cont, kind, "; ".join(f[1] for f in (F2 or unw))[:1500], ",".join(sorted(cl2 if F2 else classes)) or "-", M.summary(M.parse_meta(meta2))[:600]), small if F2 else script,
+                               perm=perms.get(name) if any(sg.startswith("order-") for sg in sigs) else None, tags=sorted(sigs)))
             continue
         if kind == "class" and not F and classes & set(CLASS_KF):
             ctx.notes.setdefault("class_scripts_passing", []).append(name)
@@ -517,11 +566,15 @@ def replay(ctx):
         ctx.report(ctx.replay, no_input=True)
         return
     script = text_.split("--- script", 1)[1].lstrip("\n")
+    perm = None
+    if "\n--- perm\n" in "\n" + script:
+        script, perm = ("\n" + script).split("\n--- perm\n", 1)
+        script = script.lstrip("\n") + "\n"
     ctx.sfh()
     package = lib_package(ctx)
     lines, rc, err = ctx.script(script)
     s = M.analyse(script, lines)
-    F, classes = M.judge(s, package)
+    F, classes = lean_judge(ctx, script, lines, package, perm=perm)
     for op, l in zip([x for x in script.split("\n") if x.strip()], lines):
         print("%-60s -> %s" % (op[:60], l[:160]))
     print("re-opened file returns: %s" % M.summary(s.meta))
